@@ -319,6 +319,8 @@ def run_free(atoms_fn, case_log, case):
 
 
 def replay(case):
+    if "cells" in case:
+        return oracle_repl(case)
     if "atoms" in case:
         it = iter(case["atoms"])
         run_free(lambda types: next(it, None), [], case)
@@ -401,15 +403,93 @@ def onchain_histories(max_len):
     return out
 
 
+def warm_histories():
+    """A plain value of some nested shape is duplicated first, then a ticket is wrapped into the same shape and DUP is tried on it:
+    what was learnt about one type must not be reused for another type that merely looks alike at the top."""
+    from checks.c01 import _ENV0
+    tk = _tk(TNAT)
+    mint = [P("PUSH", TNAT, I(5)), P("PUSH", TNAT, I(1)), P("TICKET"), UNWRAP]
+    T = rv.T
+    shapes = [
+        (P("PUSH", T("pair", TNAT, T("pair", TNAT, TNAT)), {"prim": "Pair", "args": [I(0), {"prim": "Pair", "args": [I(0), I(0)]}]}),
+         [[P("PUSH", TNAT, I(0)), P("PAIR")], [P("PUSH", TNAT, I(0)), P("PAIR")]]),
+        (P("PUSH", T("pair", T("pair", TNAT, TNAT), TNAT), {"prim": "Pair", "args": [{"prim": "Pair", "args": [I(0), I(0)]}, I(0)]}),
+         [[P("PUSH", TNAT, I(0)), P("SWAP"), P("PAIR")], [P("PUSH", TNAT, I(0)), P("SWAP"), P("PAIR")]]),
+        (P("PUSH", T("option", T("option", TNAT)), {"prim": "Some", "args": [{"prim": "Some", "args": [I(0)]}]}), [[P("SOME")], [P("SOME")]]),
+        (P("PUSH", T("or", T("or", TNAT, TNAT), TNAT), {"prim": "Left", "args": [{"prim": "Left", "args": [I(0)]}]}),
+         [[P("LEFT", TNAT)], [P("LEFT", TNAT)]]),
+        (P("PUSH", T("list", T("list", TNAT)), [[I(1)]]), [[P("NIL", tk), P("SWAP"), P("CONS")], [P("NIL", T("list", tk)), P("SWAP"), P("CONS")]]),
+        (P("PUSH", T("pair", TNAT, T("option", TNAT)), {"prim": "Pair", "args": [I(0), {"prim": "Some", "args": [I(0)]}]}),
+         [[P("SOME")], [P("PUSH", TNAT, I(0)), P("PAIR")]]),
+    ]
+    out = []
+    for plain, wraps in shapes:
+        for warm in ([plain, P("DUP"), P("DROP"), P("DROP")], [plain, P("DUP"), P("PAIR"), P("DROP")], None):
+            atoms = ([warm] if warm else []) + [mint] + wraps + [[P("DUP")]]
+            out.append({"env": xc.env_to_json(_ENV0), "free": True, "atoms": atoms})
+            out.append({"env": xc.env_to_json(_ENV0), "free": True, "atoms": ([warm] if warm else []) + [mint] + wraps + [[P("DUP", I(1))]]})
+    return out
+
+
 def _prop_onchain(case, stats):
     it = iter(case["atoms"])
     log = []
     run_free(lambda types: next(it, None), log, case)
-    stats.case(case["atoms"], len(log) >= 3, "free:on-chain-history", sample={"onchain": case["onchain"], "atoms": xc._short(case["atoms"])[:300]})
+    stats.case(case["atoms"], len(log) >= 3, "free:on-chain-history" if case.get("onchain") else "free:look-alike-types",
+               sample={"onchain": case.get("onchain"), "atoms": xc._short(case["atoms"])[:300]})
+
+
+_UNW = "IF_NONE { UNIT ; FAILWITH } {}"
+REPL_CELLS = ["PUSH nat 5 ; PUSH nat 1 ; TICKET ; " + _UNW, "PUSH nat 3 ; PUSH nat 1 ; TICKET ; " + _UNW, "PAIR ; JOIN_TICKETS ; " + _UNW,
+              "PUSH (pair nat nat) (Pair 2 1) ; SWAP ; SPLIT_TICKET ; " + _UNW + " ; UNPAIR", "READ_TICKET ; DROP", "SWAP", "DROP",
+              "PAIR", "UNPAIR", "SOME", _UNW, "PUSH nat 4 ; PUSH string \"c\" ; TICKET ; " + _UNW]
+REPL_FAIL = [" ; UNIT ; FAILWITH", " ; PUSH int 1 ; PUSH string \"a\" ; ADD", " ; DROP 50", " ; DIP { UNIT ; FAILWITH }"]
+
+
+def oracle_repl(case):
+    """Cells run one after another in one interpreter session (failing cells are rolled back): per (ticketer, contents) the total
+    amount on the stack may grow only in a cell that executes TICKET, and a cell that fails changes nothing."""
+    from pytezos.michelson.repl import Interpreter
+    it = Interpreter()
+    totals = {}
+    for no, text in enumerate(case["cells"]):
+        try:
+            res = it.execute(text)
+            failed = res.error is not None
+        except Exception:
+            failed = True
+        real = _totals_real(it.stack.items, case)
+        if failed and real != totals:
+            raise Violation("cell #%d %r failed, yet the ticket totals on the stack changed from %s to %s (cells %s)" % (
+                no, text, totals, real, case["cells"][:no + 1]), case, "repl:failed-cell-changed-totals")
+        for key, amt in real.items():
+            if amt > totals.get(key, 0) and "TICKET ;" not in text.replace("JOIN_TICKETS", "").replace("SPLIT_TICKET", "").replace("READ_TICKET", ""):
+                raise Violation("cell #%d %r raised the total of ticket %s from %d to %d without TICKET (cells %s)" % (
+                    no, text, key, totals.get(key, 0), amt, case["cells"][:no + 1]), case, "repl:amount-increase")
+        totals = real
+
+
+@st.composite
+def repl_cases(draw):
+    cells = [REPL_CELLS[0], REPL_CELLS[1]] if draw(st.booleans()) else []
+    for _ in range(draw(st.integers(2, 9))):
+        c = draw(st.sampled_from(REPL_CELLS + REPL_CELLS[:4]))
+        if draw(st.integers(0, 3)) == 0:
+            c = c + draw(st.sampled_from(REPL_FAIL))
+        cells.append(c)
+    return {"cells": cells}
+
+
+def _prop_repl(case, stats):
+    oracle_repl(case)
+    stats.case(case["cells"], any("FAILWITH ; " not in c and any(c.endswith(f) for f in REPL_FAIL) for c in case["cells"]), "repl-session",
+               sample={"cells": case["cells"][:8]})
 
 
 def run(h):
+    h.run_given(repl_cases, _prop_repl, h.n(40, 2500), shards=16, name="repl-sessions")
     h.run_enum(onchain_histories(4 if h.quick else 6), _prop_onchain, shards=16)
+    h.run_enum(warm_histories(), _prop_onchain, shards=4)
     h.run_given(lambda: cases((2, 10) if h.quick else (2, 25)), _prop, h.n(60, 5000), shards=16)
     h.run_given(lambda: st.data(), _prop_free, h.n(150, 8000), shards=16, name="free")
     if h.stats.extra.get("generator_illtyped", 0) > 0.05 * max(1, h.stats.evaluations):
